@@ -28,6 +28,31 @@ def _vec_close(a, b):
 
 
 def check(case, ctx):
+    fails = _check(case, ctx)
+    cut = case.get("cut")
+    W = np.array(case["W"], dtype=float)
+    n = len(W)
+    if not fails and cut is not None and n > cut:
+        # history: the SAME array object, edited in place (one node cut off), handed in again
+        X = gen.layout(W.copy(), case.get("order"))
+        fns = [bct.betweenness_wei, lambda M: bct.edge_betweenness_wei(M)[1]]
+        if case["kind"] == "bin":
+            fns += [bct.betweenness_bin, lambda M: bct.edge_betweenness_bin(M)[1]]
+        for f in fns:
+            ctx.call(f, X)
+        X[cut, :] = 0
+        X[:, cut] = 0
+        BCx = og.betweenness_exact(og.to_fraction_lengths(X))[0]
+        BC = np.array([float(x) for x in BCx])
+        for f in fns:
+            o = ctx.call(f, X)
+            if o.ok and not _vec_close(o.value, BC):
+                fails.append(Failure("betweenness:stale-answer-after-in-place-edit", "same array object, node %d cut off in place" % cut, case))
+                break
+    return fails
+
+
+def _check(case, ctx):
     kind = case["kind"]
     W = gen.layout(np.array(case["W"]), case.get("order"))
     n = len(W)
@@ -107,7 +132,7 @@ def check(case, ctx):
 @st.composite
 def cases(draw, nmax, kinds):
     c = draw(c03.cases(nmax, kinds))
-    return {"kind": c["kind"], "W": c["W"], "order": c.get("order", "C")}
+    return {"kind": c["kind"], "W": c["W"], "order": c.get("order", "C"), "cut": c.get("cut")}
 
 
 _SPACES = {}
